@@ -2,6 +2,7 @@ package main
 
 import (
 	"fmt"
+	"regexp"
 	"strings"
 
 	"github.com/koykov/dyntpl"
@@ -19,8 +20,13 @@ var profC05 = &Profile{Name: "context-reuse", MaxDepth: 3, MaxItems: 4, Includes
 var profC18 = &Profile{Name: "defer-and-pools", MaxDepth: 3, MaxItems: 4, Includes: true, Mods: true, Effects: true,
 	W: map[string]int{"marker": 2, "print": 6, "if": 2, "cloop": 2, "rloop": 2, "include": 3, "exit": 2}}
 
+// normDigest drops what is scratch by classification (Gen/SrcFactsCheck.v, scratch_overwritten):
+// bufI is written by Length/Capacity immediately before it is read and never otherwise.
+var reDigestScratch = regexp.MustCompile(`bufI=-?\d+;|noesc=(true|false);`)
+
 func normDigest(d string) string {
-	return strings.ReplaceAll(d, "rl(0,0,0,false,false,false);", "")
+	d = strings.ReplaceAll(d, "rl(0,0,0,false,false,false);", "")
+	return reDigestScratch.ReplaceAllString(d, "")
 }
 
 func histSig(h *history) string {
